@@ -9,7 +9,8 @@ from comp.rb.check import CASE_NAMES, ROTATING
 REQUIRED = sorted(ROTATING | {3, 4, 30, 31, 32, 40, 41, 42, 43})
 EVENTS = ["max_raised", "max_shrunk", "early_differs", "early_same"]
 
-RULE = ("seeded op scripts on frg::interval_tree over a node pool (i lo hi id / r id / q lb ub / p x, plus w/a/A: upper(node) "
+RULE = ("seeded op scripts on frg::interval_tree instantiated with P = uint64_t, int64_t and double (the same histories with endpoints "
+        "shifted / scaled: negative, mixed-sign, fractional; the N-endpoint model is compared through an order-isomorphic code) over a node pool (i lo hi id / r id / q lb ub / p x, plus w/a/A: upper(node) "
         "overwritten and rbtree::aggregate_path called from chosen nodes on stale trees): exhaustive insertion sequences over "
         "a small endpoint universe followed by ALL queries and a removal, random streams with duplicate / nested / touching / "
         "single-point intervals, queries before / inside / touching / spanning / after, removal of the holder of the maximum, "
@@ -24,10 +25,14 @@ TRUSTED = ["extraction: ExtrOcamlBasic only; OCaml 4.13.1; comp/interval/driver.
            "the red-black core is the C06 model (Rb/RbModel.v): functional core + layout, individual pointer assignments compared not verified",
            "aggregate_path's early stop: zipper model (path_early) proved equal to the full recomputation the functional model does; "
            "tied to the code by the w/a scripts (stale trees) and by every subtree_max after every op",
+           "endpoint codes of comp/interval/driver.ml (i64: sign bit flipped; f64: IEEE bits, negatives complemented): order-isomorphic maps "
+           "into N so that the extracted N model answers for signed / double endpoints; C07_any_ordered_endpoint_type proves the same model "
+           "text correct over any total preorder, C07_extracted_model_is_N_instance that the extracted model is its N instance",
            "Rb/RbCases.v (case tags) is statistics only"]
 ASSUMPTIONS = ["insert only nodes not contained, remove only contained nodes (ids_fresh; documented precondition of rbtree)",
                "node identities of contained elements are pairwise distinct",
                "lower <= upper for every inserted interval (otherwise FRG_ASSERT stops the call: modelled, compared)",
+               "endpoints are totally (pre)ordered by <=, < is its strict part (integers, doubles without NaN; NaN endpoints are skipped by harness and driver)",
                "query with lb <= ub (for lb > ub the code's test differs from the property's; Example C07_inverted_query_differs)",
                "upper/lower of a contained node are not modified without calling aggregate_path (the w/a scripts do exactly that; C07_aggregate_path_restores)"]
 
@@ -86,27 +91,28 @@ def _enum_followup(c, cases, impl, model, har, drv):
     extra = []
     for cid, ls in cases:
         w = ls[0].split() if ls else []
-        if not (len(w) == 6 and w[2] == "enum"):
+        if not (len(w) in (6, 7) and w[2] == "enum"):
             continue
         n, u, sh, nsh = int(w[1]), int(w[3]), int(w[4]), int(w[5])
+        typ = w[6] if len(w) == 7 else "u64"
         ri, rm = impl.get(cid), model.get(cid)
         if not ri:
             continue
         done = [l for l in ri["lines"] if l.startswith("D ")]
         if done:
             cnt = int(done[0].split()[1])
-            c.count("interval_enum_scripts", cnt); c.count("interval_enum_scripts_%d_intervals_universe_%d" % (n, u), cnt)
+            c.count("interval_enum_scripts", cnt); c.count("interval_enum_scripts_%s_%d_intervals_universe_%d" % (typ, n, u), cnt)
             c.evaluations += cnt - 1
         fail = [l for l in ri["lines"] if l.startswith("F ")]
         if fail:
             k = int(fail[0].split()[1])
-            extra.append(("enumfail-%d-%d-%d" % (n, u, k), gen.enum_script(n, u, k)))
+            extra.append(("enumfail-%s-%d-%d-%d" % (typ, n, u, k), gen.enum_script(n, u, k, typ=typ)))
         elif rm and not ri.get("crash") and ri["lines"] != rm["lines"]:
             d = vlib.first_diff(ri["lines"], rm["lines"])
             blk = d[0] if d else 0
             ks = [sh + nsh * j for j in range(blk * 1024, (blk + 1) * 1024)]
             tot = len(gen.all_intervals(u)) ** n
-            extra += [("enumdiff-%d-%d-%d" % (n, u, k), gen.enum_script(n, u, k)) for k in ks if k < tot]
+            extra += [("enumdiff-%s-%d-%d-%d" % (typ, n, u, k), gen.enum_script(n, u, k, typ=typ)) for k in ks if k < tot]
     if extra:
         ri2 = vlib.run_cases(har, extra, timeout=600)
         rm2 = vlib.run_cases(drv, extra, timeout=600) if drv else {}
@@ -136,16 +142,22 @@ def run(c):
         cases = vlib.read_replay(c.replay)
     else:
         cases = gen.corpus()
+        # every generated history runs on one of the three instantiations of the harness: P = uint64_t, int64_t (endpoints
+        # shifted: all negative / mixed sign), double (shifted and scaled by 0.25: negative, mixed-sign, fractional)
+        def typed(ls):
+            typ = c.rng.choice(["u64", "u64", "i64", "f64", "f64"])
+            return gen.retype(ls, typ, c.rng.choice([100, 4, 4, 0, 1 << 20]))
         for i in range(8000 if thorough else 2000):
-            cases.append(("g%d" % i, gen.gen_case(c.rng)))
+            cases.append(("g%d" % i, typed(gen.gen_case(c.rng))))
         for i in range(3000 if thorough else 600):
-            cases.append(("d%d" % i, gen.gen_dirty(c.rng)))
+            cases.append(("d%d" % i, typed(gen.gen_dirty(c.rng))))
         for i in range(10 if thorough else 2):
             pool = c.rng.choice([3000, 8000] if thorough else [500, 1500])
-            cases.append(("big%d-%d" % (i, pool), gen.gen_big(c.rng, pool, 64 if pool >= 3000 else 16)))
+            cases.append(("big%d-%d" % (i, pool), typed(gen.gen_big(c.rng, pool, 64 if pool >= 3000 else 16))))
         # exhaustive small scope: every insertion sequence x ALL queries (+ one removal, all queries again).
         # explicit scripts (with lb > ub queries; their '@' statistics feed the coverage rule) ...
         ex = gen.exhaustive(1, 8, inverted=True) + gen.exhaustive(2, 8 if thorough else 6, inverted=True) + gen.exhaustive(3, 3)
+        ex += gen.exhaustive(2, 5, inverted=True, typ="f64") + gen.exhaustive(2, 5, inverted=True, typ="i64") + gen.exhaustive(3, 3, typ="f64")
         ivs = gen.all_intervals(8)
         qs = gen.all_queries(8)
         for k in range(1500 if thorough else 400):
@@ -153,14 +165,17 @@ def run(c):
             seq = [c.rng.choice(ivs) for _ in range(n)]
             lines = [gen._cfg(n)] + ["i %d %d %d" % (lo, hi, j) for j, (lo, hi) in enumerate(seq)] + qs
             lines += ["r %d" % c.rng.randrange(n)] + qs
-            ex.append(("exs-%d" % k, lines))
+            ex.append(("exs-%d" % k, typed(lines)))
         # ... and the enumeration done inside harness and driver (digest of every canonical line, oracle on every script):
         # endpoint universe {0..7}: all sequences of <= 3 intervals (quick) / <= 4 intervals (thorough) x all queries
         if thorough:
             enum = gen.enum_cases(2, 8, 1) + gen.enum_cases(3, 8, 16) + gen.enum_cases(4, 8, 64) + gen.enum_cases(5, 5, 32) + gen.enum_cases(6, 3, 8)
+            enum += gen.enum_cases(3, 8, 16, "f64") + gen.enum_cases(4, 8, 64, "f64") + gen.enum_cases(3, 8, 16, "i64") + gen.enum_cases(4, 6, 16, "i64")
         else:
             sh = c.rng.randrange(64)
             enum = gen.enum_cases(2, 8, 1) + gen.enum_cases(3, 8, 16) + gen.enum_cases(4, 4, 4) + [gen.enum_cases(4, 8, 64)[sh]] + [gen.enum_cases(5, 5, 256)[sh]]
+            # the double / signed instantiations: endpoints (e - 4) * 0.25 resp. e - 4, i.e. negative and mixed sign
+            enum += gen.enum_cases(3, 8, 16, "f64") + [gen.enum_cases(4, 8, 64, "f64")[sh]] + gen.enum_cases(3, 6, 8, "i64")
         ex += enum
         c.count("interval_exhaustive_cases", len(ex))
         cases += ex
@@ -170,10 +185,11 @@ def run(c):
             c.count("interval_op_" + {"i": "insert", "r": "remove", "q": "query2", "p": "query1", "w": "write_upper", "a": "aggregate_path", "A": "reaggregate"}.get(l.split()[0], "other"))
             if l[0] == "q":
                 w = l.split()
-                if int(w[1]) > int(w[2]):
+                if float(w[1]) > float(w[2]):
                     c.count("interval_query_inverted_lb_gt_ub")
         w = ls[0].split() if ls else []
         if len(w) >= 3:
+            c.count("interval_endpoint_type_" + (w[-1] if w[-1] in ("i64", "f64") else "u64"))
             p = int(w[1]) if w[1].isdigit() else 0
             c.count("interval_pool_" + ("le8" if p <= 8 else "le24" if p <= 24 else "le64" if p <= 64 else "big"))
     # self-enumeration cases first (one long run each, spread over the shards), then big scripts
